@@ -52,6 +52,10 @@ func load() {
 func Reset() { counts = map[string]int{}; Failed = nil; Reached = nil }
 
 func key(name string) string {
+	if concurrent || shareNames {
+		// same name = same input (no per-call numbering, no writes)
+		return name
+	}
 	counts[name]++
 	if n := counts[name]; n > 1 {
 		return fmt.Sprintf("%s#%d", name, n)
@@ -112,6 +116,9 @@ func Assume(c bool) {
 }
 
 func Assert(c bool, msg string) {
+	if concurrent {
+		return
+	}
 	if !c {
 		Failed = append(Failed, msg)
 		fmt.Printf("VRT-ASSERT-FAILED: %s\n", msg)
@@ -123,7 +130,14 @@ func Fail(msg string) { Assert(false, msg) }
 // Known marks the region of a recorded known finding (no-op natively).
 func Known(id string, c bool) {}
 
-func Reach(label string) { Reached = append(Reached, label); fmt.Printf("VRT-REACH: %s\n", label) }
+func Reach(label string) {
+	if concurrent {
+		return
+	}
+	reach(label)
+}
+
+func reach(label string) { Reached = append(Reached, label); fmt.Printf("VRT-REACH: %s\n", label) }
 
 // Repeat: how often a native replay repeats a schedule-dependent step (the
 // symbolic run covers every order in one execution and gets 1).
@@ -138,6 +152,44 @@ func MustReach(label string) {}
 
 // Enter marks the start of the code under test (C20 heap partition).
 func Enter() {}
+
+// Shared declares the values (and what they reach) that concurrent requests
+// share: the API and Client values. Package-level variables are always shared.
+func Shared(vs ...interface{}) {}
+
+var concurrent bool
+var shareNames bool
+
+// ShareNames(true): from here on, inputs are identified by name alone, so two
+// packages asking for the same name see the same value (C18 product harness).
+func ShareNames(on bool) { shareNames = on }
+
+// Concurrent runs the per-request part of a C20 harness: once symbolically and
+// in an ordinary replay; with VERIF_CONCURRENT=n (race replay) in n goroutines,
+// repeatedly, with no synchronisation of our own between them.
+func Concurrent(f func()) {
+	n := 0
+	fmt.Sscan(os.Getenv("VERIF_CONCURRENT"), &n)
+	if n < 2 {
+		f()
+		return
+	}
+	load()
+	concurrent = true
+	done := make(chan struct{}, n)
+	for g := 0; g < n; g++ {
+		go func() {
+			defer func() { recover(); done <- struct{}{} }()
+			for it := 0; it < 50; it++ {
+				f()
+			}
+		}()
+	}
+	for g := 0; g < n; g++ {
+		<-done
+	}
+	concurrent = false
+}
 
 // Symbolic reports whether the harness runs under the symbolic engine.
 func Symbolic() bool { return false }
